@@ -57,7 +57,7 @@ class YowMediaProtocolLayer(YowProtocolLayer):
             elif mediaNode.getAttributeValue("mediatype") == "url":
                 entity = ExtendedTextMediaMessageProtocolEntity.fromProtocolTreeNode(node)
                 self.toUpper(entity)
-            else:
+            elif mediaNode.getAttributeValue("mediatype") is not None:
                 logger.warn("Unsupported mediatype: %s, will send receipts" % mediaNode.getAttributeValue("mediatype"))
                 self.toLower(MediaMessageProtocolEntity.fromProtocolTreeNode(node).ack(True).toProtocolTreeNode())
 
